@@ -41,7 +41,7 @@ ErrId(prefix, id) == prefix \o ToString(id)
                             (0: no such call), np.tb = SetDefaultPartitions value (32: no such call)
    ps = [exps: Seq([kind, id]), nexp, last (offset counter), cur: per-topic round-robin cursors,
          ov: per-topic partition-count overrides of TopicConfig (0 = none), closed]
-   m  = [mid, topic, key, mpart]                                                         *)
+   m  = [mid, topic, key, mpart, bad]   bad = 1: the partitioner returns an error for this message                                                         *)
 
 PInit0(npa) == [exps |-> <<>>, nexp |-> 0, last |-> 0, cur |-> [ta |-> 0, tb |-> 0, tc |-> 0],
                 ov |-> [ta |-> npa, tb |-> 0, tc |-> 0], closed |-> FALSE]
@@ -62,17 +62,24 @@ AllowedParts(cf, ps, m) ==
     [] cf.pk = "rr" -> {IF ps.cur[m.topic] >= n THEN 0 ELSE ps.cur[m.topic]}
 
 Out(kind, err, off, part) == [kind |-> kind, err |-> err, off |-> off, part |-> part]
+NoPart == -2      \* "no partition was chosen for this message" (partitioner error): nothing to compare
 
 (* One message handed to the mock; p is the partition the partitioner chose (p \in AllowedParts).
    Result: new state, the expectation taken (0 = none), the outcomes the message receives (for the
    sync mock the single outcome is SendMessage's return value) and the ErrorReporter calls.
    cf.quirks = TRUE models the pinned code as it is:
      - async: a failing checker does not stop the scripted result (second outcome, offset counted)
-     - sync : SendMessage returns partition 0 on success                                  *)
+     - sync : SendMessage returns partition 0 on success
+   A message whose partitioning fails still uses up its expectation (the i-th message belongs to the
+   i-th expectation): its single outcome is the partitioner's error "p<mid>", which is reported; the
+   checker is not run, no offset is handed out.                                                 *)
 PSend(cf, ps, m, p) ==
   IF ps.exps = <<>> THEN
     [ps |-> ps, took |-> 0, ekind |-> "-", rep |-> <<"noexp">>,
      outs |-> IF cf.mode = "sync" THEN <<Out("err", "noexp", -1, -1)>> ELSE <<>>]
+  ELSE IF m.bad = 1 THEN
+    [ps |-> [ps EXCEPT !.exps = Tail(@)], took |-> Head(ps.exps).id, ekind |-> Head(ps.exps).kind,
+     rep |-> <<"partitioner">>, outs |-> <<Out("err", ErrId("p", m.mid), -1, NoPart)>>]
   ELSE
     LET e == Head(ps.exps)
         ps1 == [ps EXCEPT !.exps = Tail(@), !.cur[m.topic] = IF cf.pk = "rr" THEN p + 1 ELSE @]
@@ -105,7 +112,10 @@ PBatchRun(cf, es, ms, ps_parts, acc) ==
         al == AllowedParts(cf, acc.ps, m)
         p == IF Head(ps_parts) \in al THEN Head(ps_parts) ELSE CHOOSE q \in al : TRUE
         st1 == [acc.ps EXCEPT !.cur[m.topic] = IF cf.pk = "rr" THEN p + 1 ELSE @]
-    IN IF CheckerFails(e.kind) THEN
+    IN IF m.bad = 1 THEN      \* partitioner error: reported and returned, the batch stops here
+         [acc EXCEPT !.err = ErrId("p", m.mid), !.rep = Append(@, "partitioner"),
+                     !.offs = Append(@, -1), !.parts = Append(@, NoPart)]
+       ELSE IF CheckerFails(e.kind) THEN
          [acc EXCEPT !.ps = st1, !.err = ErrId("c", e.id), !.rep = Append(@, "checker"),
                      !.offs = Append(@, -1), !.parts = Append(@, p)]
        ELSE IF ~Succeeds(e.kind) THEN
@@ -126,12 +136,16 @@ PBatch(cf, ps, ms, parts) ==
 
 -----------------------------------------------------------------------------
 (* ---------------- consumer mock ----------------
-   One topic, partitions 0 and 1 may be registered, partition 2 never is.
+   Partition consumers live in four slots: topic "tc" partitions 0, 1 = slots 0, 1 and topic "td"
+   partitions 0, 1 = slots 2, 3; slot 9 = ("tc", partition 9) is never registered.
    pc = [reg, eoff (expected offset, AnyOff = any), consumed, yields / nerr (messages / errors
          yielded so far), mq (pending messages: Seq([mid, off])), eq (pending error ids), dm, de (drain expectations),
          closed (channels closed)]                                                       *)
 AnyOff == -1000
-CParts == {0, 1}
+CParts == {0, 1, 2, 3}
+CNever == 9
+CTopicOf(s) == IF s \in {2, 3} THEN "td" ELSE "tc"
+CPartOf(s) == IF s = CNever THEN 9 ELSE s % 2
 PC0 == [reg |-> FALSE, eoff |-> 0, consumed |-> FALSE, yields |-> 0, nerr |-> 0, mq |-> <<>>, eq |-> <<>>,
         dm |-> FALSE, de |-> FALSE, closed |-> FALSE]
 CInit == [p \in CParts |-> PC0]
@@ -176,10 +190,23 @@ CClosePC(cs, p) ==
   [CRes([cs EXCEPT ![p] = CCloseSt(@)], IF ~cs[p].consumed THEN "notstarted" ELSE "ok", CCloseRep(cs[p]))
      EXCEPT !.errs = IF cs[p].consumed THEN cs[p].eq ELSE <<>>]
 \* Consumer.Close: closes every registered partition consumer (map order: reporter calls as a bag)
+RECURSIVE CCloseAllRep(_, _)
+CCloseAllRep(cs, s) == IF s \notin CParts THEN <<>>
+                       ELSE (IF cs[s].reg THEN CCloseRep(cs[s]) ELSE <<>>) \o CCloseAllRep(cs, s + 1)
 CCloseAll(cs) ==
-  CRes([p \in CParts |-> IF cs[p].reg THEN CCloseSt(cs[p]) ELSE cs[p]], "ok",
-       (IF cs[0].reg THEN CCloseRep(cs[0]) ELSE <<>>) \o (IF cs[1].reg THEN CCloseRep(cs[1]) ELSE <<>>))
+  CRes([p \in CParts |-> IF cs[p].reg THEN CCloseSt(cs[p]) ELSE cs[p]], "ok", CCloseAllRep(cs, 0))
 
 \* HighWaterMarkOffset of a registered partition: offset of the last yielded message + 1
 CHwm(pc) == pc.yields + 1
+
+(* topic metadata of the consumer mock: SetTopicMetadata(config v), Topics(), Partitions(topic).
+   md = 0: no metadata set (Topics / Partitions are unexpected calls: reported, ErrOutOfBrokers).  *)
+MetaTopics(v) == IF v = 1 THEN {"tc"} ELSE {"tc", "td"}
+MetaParts(v, t) == IF v = 1 THEN <<0, 1>> ELSE IF t = "tc" THEN <<0>> ELSE <<0, 1, 2>>
+CTopics(md) == IF md = 0 THEN [ret |-> "outofbrokers", tset |-> {}, rep |-> <<"no_metadata">>]
+               ELSE [ret |-> "ok", tset |-> MetaTopics(md), rep |-> <<>>]
+CPartitions(md, t) ==
+  IF md = 0 THEN [ret |-> "outofbrokers", parts |-> <<>>, rep |-> <<"no_metadata">>]
+  ELSE IF t \notin MetaTopics(md) THEN [ret |-> "unknowntopic", parts |-> <<>>, rep |-> <<>>]
+  ELSE [ret |-> "ok", parts |-> MetaParts(md, t), rep |-> <<>>]
 =============================================================================
